@@ -8,7 +8,11 @@
 typedef struct m_VM vm_t;
 typedef struct m_Activation act_t;
 
+#ifdef LOOP_INV_CONTEXT
+#define V(p) (p) /* loop invariants: p is the typed ghost pointer g_vm (struct casts are not parsable there) */
+#else
 #define V(p) ((vm_t *)(p))
+#endif
 #define N(p) (V(p)->code.code._n)
 #define CODE(p) (V(p)->code.code._d)
 #define IP(p) (V(p)->instruction_pointer)
@@ -39,6 +43,7 @@ extern _Bool *g_isroot;   /* instruction i belongs to the root routine */
 extern unsigned long *g_data_n;
 extern int **g_data_d;
 extern int g_sel;         /* opcode selected by the harness */
+extern vm_t *g_vm;        /* typed handle on the machine for loop invariants */
 
 #define FS(i) (g_fs[i])
 #define PEND(i) (g_pend[i])
@@ -105,6 +110,11 @@ extern int g_sel;         /* opcode selected by the harness */
 #define NAT_G(p) (g_g >= M(p) || DATA(p)[g_g] >= 0)
 
 /* the dynamic invariant, instantiated where the step needs it (top, top-1), plus the ghost instances */
+#ifdef AS_CALLEE
+#define REQ_GOLD(p)
+#else
+#define REQ_GOLD(p) __CPROVER_requires(g_g >= M(p) || g_old == DATA(p)[g_g]) /* ghost snapshot of data[g_g] */
+#endif
 #define REQ_INV(p)                                                                        \
   __CPROVER_requires(CUR(p))                                                              \
   __CPROVER_requires(D(p) != 0 || M(p) == 0)                                              \
@@ -112,7 +122,7 @@ extern int g_sel;         /* opcode selected by the harness */
   __CPROVER_requires(D(p) < 2 || FRL(p, D(p) - 2))                                        \
   __CPROVER_requires(FRL(p, g_k))                                                         \
   __CPROVER_requires(NAT_G(p))                                                            \
-  __CPROVER_requires(g_g >= M(p) || g_old == DATA(p)[g_g])
+  REQ_GOLD(p)
 #define POST_CUR(p) (IP(p) >= 0 && (unsigned long)IP(p) < N(p) && CUR(p))
 #define POST_FR(p) ((D(p) != 0 || M(p) == 0) && FRL(p, g_k))
 
